@@ -79,6 +79,10 @@ def check(ctx):
             inner = [ord(c) for c in " ".join(rng.choice(words) for _ in range(k2))]
             for sh in ("mshell", "mshell_tables", "rshell", "rshell_tables"):
                 lines.append(call(sh + "_nested", s, inner))
+        if i % 4 == 1:     # a script: several command lines separated by newlines, walked by the caller with strtok and dispatched line by line
+            text = "\n".join((rng.choice(["", " ", "\t"]) + rng.choice([" ", "  ", "\t"]).join(rng.choice(words[:6] + ["1", "--flag"]) for _ in range(rng.choice([0, 1, 1, 2, 3, 12])))) for _ in range(rng.randrange(1, 7))) + rng.choice(["", "\n"])
+            for sh in ("mshell", "mshell_tables", "rshell", "rshell_tables"):
+                lines.append(call(sh + "_script", [ord(c) for c in text]))
         lines.append(call("argv", s, n=rng.choice([0, 1, 2, 3, 10, 11])))
         lines.append(call("argv_n", s, n=rng.choice([0, 1, 2, 3, 10])))
     comps = ["dev", "null", ".", "..", "a", "", "x.y", ".hidden", "b"]
